@@ -146,6 +146,24 @@ def run(case, ctx):
         ctx.violation("linear-paths-differ/%s/%s" % (kind, "+".join(case["feats"]) or "plain"),
                       "model %r\n gfapy %r\n document %r" % (wn, gn, lines))
         return
+    # the chain of a single segment, asked directly (twice: the answer does not depend on what
+    # was asked before, in this or another Gfa of the process)
+    import random as _random
+    prng = _random.Random(len(lines) * 7919 + len(repr(lines)))
+    members = [(s_, c) for c, ring in want if not ring for s_, _e in c]
+    prng.shuffle(members)
+    for s_, c in members[:3]:
+        for arg in (s_, g.segment(s_)):
+            one = call(ctx, "linear_path", g.linear_path, arg)
+            ctx.count("linear_path_calls")
+            if not one.ok:
+                ctx.violation("linear_path-raises/%s" % one.cls(), "linear_path(%r) on %r: %s" % (s_, lines, str(one.exc)[:200]))
+                return
+            gc = [(se.name, se.end_type) for se in one.value]
+            if CH.norm_chain(gc, False) != CH.norm_chain(c, False):
+                ctx.violation("linear_path-differs/%s" % ("truncated" if len(gc) < len(c) else "other"),
+                              "linear_path(%r): gfapy %r, model chain %r\n document %r" % (s_, gc, c, lines))
+                return
     for c, ring in want:
         ctx.add("chain_lengths", len(c))
     if any(len(c) >= 3 and len(set(e for _, e in c)) > 1 for c, _ in want):
